@@ -34,6 +34,7 @@ import (
 	acracensor "github.com/cossacklabs/acra/acra-censor"
 	"github.com/cossacklabs/acra/decryptor/base"
 	base_mysql "github.com/cossacklabs/acra/decryptor/mysql/base"
+	encryptor_base "github.com/cossacklabs/acra/encryptor/base"
 	"github.com/cossacklabs/acra/encryptor/mysql"
 	"github.com/cossacklabs/acra/keystore/filesystem"
 	"github.com/cossacklabs/acra/logging"
@@ -422,6 +423,14 @@ func (handler *Handler) ProxyClientConnection(ctx context.Context, errCh chan<- 
 						Errorln("Can't write response with error to client")
 				}
 				continue
+			}
+
+			if cmd == CommandStatementPrepare {
+				// the encryption settings remembered for placeholders belong to one prepared statement:
+				// those of an earlier prepare must not be applied to the parameters of this one
+				if clientSession := base.ClientSessionFromContext(ctx); clientSession != nil {
+					encryptor_base.DeletePlaceholderSettingsFromClientSession(clientSession)
+				}
 			}
 
 			queryObj := mysql.NewOnQueryObjectFromQuery(query, handler.parser)
